@@ -48,6 +48,8 @@ def memo_rule(prog, rep, rule="OWN-OUT"):
     """a memoising decorator keeps what the function returned and hands the SAME object to every later caller: for a mutable
     result that is process-wide shared state, behind the back of every copy the storage methods make"""
     n = 0
+    if rule == "MEMO":
+        rep.rule(rule, "a function memoised with lru_cache / cache (and called somewhere) returns immutable values and is keyed on arguments whose values determine the answer: no datetime (equality ignores fold), no object whose state the function reads")
     for fi in prog.funcs.values():
         decos = [d for d in fi.decorators if d.split("(")[0].split(".")[-1] in MEMO_DECOS]
         if not decos:
@@ -65,8 +67,25 @@ def memo_rule(prog, rep, rule="OWN-OUT"):
             for x in [v] + ([v.body, v.orelse] if isinstance(v, ast.IfExp) else []) + (list(v.values) if isinstance(v, ast.BoolOp) else []):
                 if isinstance(x, (ast.Dict, ast.List, ast.Set, ast.ListComp, ast.DictComp, ast.SetComp)) or (isinstance(x, ast.Call) and (norm(x.func) in MUTABLE_MAKERS or norm(x.func) in prog.class_by_name)):
                     bad = bad or (r, x)
+        # the cache is keyed by equality / hash of the arguments: the result must depend on nothing else
+        stale = None
+        for p_ in [a for a in fi.node.args.posonlyargs + fi.node.args.args + fi.node.args.kwonlyargs if a.arg not in ("self", "cls")]:
+            ann = norm(p_.annotation) if p_.annotation is not None else ""
+            alias = fi.mod.consts.get(ann)
+            full = ann + (" = " + norm(alias) if alias is not None else "")
+            if any(k in full for k in ("datetime", "time")):
+                stale = stale or (p_, f"`{p_.arg}: {ann}` can be a datetime: equality and hash of datetimes ignore `fold` (the two readings of an ambiguous wall-clock hour compare equal though they are an hour apart), so one instant is answered with the cached result of another")
+            elif any(k in full for k in ("Datastore", "Bucket", "Storage", "Event", "dict", "Dict", "list", "List", "Any", "Iterable")):
+                stale = stale or (p_, f"`{p_.arg}: {ann}` is a mutable object (or unhashable): what the function reads through it can change between calls while the cached answer stays")
+            elif not ann:
+                uses = [x for x in walk_own(fi.node) if isinstance(x, ast.Attribute) and isinstance(x.value, ast.Name) and x.value.id == p_.arg and x.attr not in ("strip", "lower", "upper", "split", "startswith", "endswith", "format", "encode", "casefold", "replace", "find", "join")]
+                if uses:
+                    stale = stale or (p_, f"`{p_.arg}.{uses[0].attr}` is read from an unannotated argument: the result depends on the object's state, the cache key only on its identity / equality")
+        rep.check(stale is None, rule, fi.short, f"memoised with @{decos[0][:30]}: cache key", "result is a function of the arguments' values", (f"{fi.short} is memoised, but {stale[1]}" if stale else ""), fi.loc(stale[0]) if stale else fi.loc())
         rep.check(bad is None, rule, fi.short, f"memoised with @{decos[0][:30]}", "returns immutable values only", (f"{fi.short} is memoised and returns a mutable object (`{norm(bad[1])[:50]}`): every caller gets the same dict / list, so what one reader does to the value it was handed (or a later write through it) shows up in the values handed to all other readers, of this and of other buckets" if bad else ""), fi.loc(bad[0]) if bad else fi.loc())
     rep.extra["memoised_functions"] = n
+    if rule == "MEMO" and not n:
+        rep.ok(rule, "all packages", "memoised functions", "none", None)
 
 
 def own_rules(prog, rep, classes=STORAGE_CLASSES, methods=IFACE):
